@@ -650,6 +650,7 @@ class VPipeWriter:
     def __init__(self, pipe: VPipe) -> None:
         self.pipe = pipe
         self.closed = False
+        self.unflushed = False
         self.raw = _RawWriter(self)
 
     def _proc_close(self) -> None:
@@ -673,6 +674,9 @@ class VPipeWriter:
         if self.closed:
             raise ValueError("write to closed file")
         if p.rclosed:
+            # like BufferedWriter: the data that could not be flushed stays in the buffer,
+            # so a later close() fails again
+            self.unflushed = True
             raise BrokenPipeError(32, "Broken pipe")
         if p.cut_at is not None and p.total + len(data) >= p.cut_at:
             keep = p.cut_at - p.total
@@ -704,6 +708,9 @@ class VPipeWriter:
         self.pipe.w.point("pclose-w:" + self.pipe.name, xproc=True)
         self.closed = True
         self.pipe.wclosed = True
+        if self.unflushed and self.pipe.rclosed:
+            # BufferedWriter.close() flushes first; the descriptor is closed anyway
+            raise BrokenPipeError(32, "Broken pipe")
 
 
 class VPipeReader:
